@@ -118,6 +118,13 @@ func c20Block(rng *rand.Rand, size int, idx int) string {
 		if rng.IntN(6) == 0 {
 			return lead + ": " + strings.Repeat("c", body-4) + "\n\n" // comment-only block
 		}
+		// line terminator and blank-line terminator vary (LF, CR, CRLF in every order that keeps
+		// them two separate line ends)
+		terms := [][2]string{{"\n", "\n"}, {"\n", "\n"}, {"\r", "\r"}, {"\r\n", "\r\n"}, {"\n", "\r"}, {"\n", "\r\n"}, {"\r\n", "\n"}, {"\r\n", "\r"}, {"\r", "\r\n"}}
+		t := terms[rng.IntN(len(terms))]
+		if pl := body - 6 - len(t[0]) - len(t[1]); pl >= 1 {
+			return lead + "data: " + strings.Repeat(string(rune('a'+idx%26)), pl) + t[0] + t[1]
+		}
 		return lead + "data: " + strings.Repeat(string(rune('a'+idx%26)), body-8) + "\n\n"
 	case body >= 4:
 		return lead + "id" + strings.Repeat("\n", body-2)[:2] + strings.Repeat("\n", body-4)
@@ -357,8 +364,9 @@ func TestC20(t *testing.T) {
 		}
 		if limit <= 200 && rng.IntN(3) == 0 {
 			// many tiny keep-alive blocks, more than the limit in total, then an event
+			ka := []string{": k\n\n", ": k\n\n", ": k\r\r", ": k\n\r", ": k\n\r\n", ": k\r\n\r\n", "data: k\n\r", "data: k\n\r\n"}
 			for k := 0; k < limit; k++ {
-				b.WriteString(": k\n\n")
+				b.WriteString(ka[rng.IntN(len(ka))])
 			}
 			b.WriteString("data: after keep-alives\n\n")
 		}
